@@ -212,7 +212,7 @@ func (s *wg) define(n ast.Node, name string, typ *ty) string {
 			s.alias[name] = in
 		}
 	}
-	s.t.env[in] = typ
+	s.t.bind(in, typ, n.Pos())
 	s.declDepth[in] = s.depth
 	s.wrote(in)
 	s.dropProv(in)
@@ -283,7 +283,7 @@ func (s *wg) envVars() []string {
 		}
 		out = append(out, v)
 	}
-	sort.Strings(out)
+	s.t.sortDecl(out)
 	return out
 }
 
@@ -328,7 +328,7 @@ func (s *wg) need(e ast.Expr, n ast.Node) ast.Expr {
 	}
 	v := s.fresh(base + "_")
 	s.pre = append(s.pre, v+" <- wneed "+paren(term)+" ;;\n  ")
-	s.t.env[v] = typ.elem
+	s.t.bind(v, typ.elem, n.Pos())
 	s.declDepth[v] = s.depth
 	s.cache[term] = v
 	return &ast.Ident{NamePos: n.Pos(), Name: v}
@@ -461,7 +461,7 @@ func (s *wg) rw(e ast.Expr) ast.Expr {
 		}
 		v := s.fresh("slice_")
 		s.pre = append(s.pre, v+" <- wslice "+paren(xs)+" "+paren(lo)+" "+paren(hi)+" ;;\n  ")
-		s.t.env[v] = tBytes
+		s.t.bind(v, tBytes, x.Pos())
 		s.declDepth[v] = s.depth
 		return &ast.Ident{NamePos: x.Pos(), Name: v}
 	case *ast.IndexExpr:
@@ -911,7 +911,7 @@ func (s *wg) stmts(list []ast.Stmt, k func() string) string {
 					}
 				}
 				out += s.flush()
-				in := s.define(st, id.Name, typ)
+				in := s.define(id, id.Name, typ)
 				out += "let " + cname(in) + " := " + val + " in\n  "
 			}
 		}
@@ -1126,7 +1126,7 @@ func (s *wg) assignTo(lhs ast.Expr, tok token.Token, rs string, rt *ty, n ast.No
 			if typ.k == "untyped" {
 				typ = tInt
 			}
-			in := s.define(n, id.Name, typ)
+			in := s.define(id, id.Name, typ)
 			s.pendingProv = in
 			return "let " + cname(in) + " := " + rs + " in\n  "
 		}
@@ -1258,7 +1258,7 @@ func (s *wg) newStructProv(v string, typ *ty, lit *ast.CompositeLit) string {
 						s.prov[path] = map[string]bool{"share:" + q: true}
 					}
 				}
-				s.t.env[g] = tBool
+				s.t.bindAfter(g, tBool, v) // the ghost of a local record sits next to the record
 				s.declDepth[g] = s.declDepth[v]
 				s.wrote(g)
 				out += "let " + g + " := " + val + " in\n  "
@@ -1419,6 +1419,10 @@ func (s *wg) assignField(lhs *ast.SelectorExpr, tok token.Token, rs string, rt *
 				}
 			}
 			sort.Strings(qs)
+			sort.SliceStable(qs, func(i, j int) bool { // by the declaration of the local record, then by the field's name
+				ri, rj := strings.SplitN(qs[i], ".", 2)[0], strings.SplitN(qs[j], ".", 2)[0]
+				return ri != rj && s.t.declLess(ri, rj)
+			})
 			for _, q := range qs {
 				qp := strings.Split(q, ".")
 				out += s.storeAlias(q, c.pointee, ghost(qp[0], qp[1]), root, n)
@@ -1524,7 +1528,7 @@ func (s *wg) hoistState(x *ast.CallExpr, f *ast.SelectorExpr, xt *ty) ast.Expr {
 	s.pre = append(s.pre, "let "+r+" := ("+cn+" "+cur+") in\n  let "+cname(root)+" := ("+s.useSetter(rt.name, sel.Sel.Name)+" ("+cn+"_st "+cur+") "+cname(root)+") in\n  ")
 	s.wrote(root)
 	res := funcRes[xt.name+"."+f.Sel.Name]
-	s.t.env[r] = res
+	s.t.bind(r, res, x.Pos())
 	s.declDepth[r] = s.depth
 	return &ast.Ident{NamePos: x.Pos(), Name: r}
 }
@@ -1622,7 +1626,7 @@ func (s *wg) ifStmt(st *ast.IfStmt, rest []ast.Stmt, k func() string) string {
 				vars = append(vars, v)
 			}
 		}
-		sort.Strings(vars)
+		s.t.sortDecl(vars)
 		s.restrictEnv(outer)
 		for _, v := range vars {
 			s.wrote(v)
@@ -1775,7 +1779,7 @@ func (s *wg) forStmt(st *ast.ForStmt, rest []ast.Stmt, k func() string) string {
 				cvars = append(cvars, v)
 			}
 		}
-		sort.Strings(cvars)
+		s.t.sortDecl(cvars)
 		for _, v := range cvars {
 			ctys = append(ctys, saved.env[v].coq())
 		}
@@ -1847,7 +1851,7 @@ func (s *wg) function() string {
 			if typ.k == "opt" && typ.elem.k == "struct" && !usesNilNode(d.Body, id.Name) {
 				typ = typ.elem
 			}
-			s.t.env[id.Name] = typ
+			s.t.bind(id.Name, typ, id.Pos())
 			s.declDepth[id.Name] = 0
 			sig.params = append(sig.params, typ)
 			params = append(params, fmt.Sprintf("(%s : %s)", cname(id.Name), typ.coq()))
@@ -1868,7 +1872,7 @@ func (s *wg) function() string {
 		}
 		for _, id := range f.Names {
 			s.named = append(s.named, id.Name)
-			s.t.env[id.Name] = typ
+			s.t.bind(id.Name, typ, id.Pos())
 			s.declDepth[id.Name] = 0
 			z := wgZero(typ)
 			if z == "?" {
@@ -2267,7 +2271,7 @@ func (m *wgMux) mainLoop(st *ast.ForStmt, rest []ast.Stmt, k func() string) stri
 			cvars = append(cvars, v)
 		}
 	}
-	sort.Strings(cvars)
+	s.t.sortDecl(cvars)
 	for _, v := range cvars {
 		ctys = append(ctys, saved.env[v].coq())
 	}
@@ -2431,7 +2435,7 @@ func (p *pkg) muxMethod(key string) string {
 	var fieldBinders []string
 	for _, f := range mg0.fieldOrder {
 		v := "m_" + f
-		s.t.env[v] = mg0.fieldTy[f]
+		s.t.bind(v, mg0.fieldTy[f], token.NoPos)
 		s.declDepth[v] = 0
 		stateTys[v] = mg0.fieldTy[f].coq()
 	}
@@ -2444,7 +2448,7 @@ func (p *pkg) muxMethod(key string) string {
 			if typ.k == "opt" && typ.elem.k == "struct" && !usesNilNode(d.Body, id.Name) {
 				typ = typ.elem
 			}
-			s.t.env[id.Name] = typ
+			s.t.bind(id.Name, typ, id.Pos())
 			s.declDepth[id.Name] = 0
 			params = append(params, fmt.Sprintf("(%s : %s)", cname(id.Name), typ.coq()))
 		}
@@ -2510,6 +2514,7 @@ func (p *pkg) muxRest() string {
 		if typ == nil {
 			s.fail(d, "variable %s handed over by the prefix has a type (%s) this translation does not know", v, tys[i])
 		}
+		s.t.adoptDecl(s2.t, v) // same order as the prefix lists them
 		s.t.env[v] = typ
 		s.declDepth[v] = 0
 		stateTys[v] = tys[i]
@@ -2577,7 +2582,7 @@ func (p *pkg) muxRest() string {
 		}
 		ks, _ := s.sx(ix.Index)
 		pre += s.flush() + "let key_ := " + ks + " in\n  "
-		s.t.env["key_"] = tInt
+		s.t.bind("key_", tInt, as.Pos())
 		s.declDepth["key_"] = 0
 		m.ctxVar, m.ctxKey, m.ctxMap = id.Name, "key_", mv
 		m.ext["map_"+mi.val.name+"_set"] = true
@@ -2594,7 +2599,7 @@ func (p *pkg) muxRest() string {
 	for v := range m.ptrParam {
 		ptrs = append(ptrs, v)
 	}
-	sort.Strings(ptrs)
+	s.t.sortDecl(ptrs) // parameter order
 	for _, v := range ptrs {
 		m.stateOrder = append(m.stateOrder, v)
 		m.used[v] = true
